@@ -16,6 +16,7 @@ static struct {
   int nsleeps;
   uint64_t us[3];
   int via[3];
+  int pre_us[3]; /* computation (kernel thread busy, no polling) right before the sleep call */
   int compute_us, reps;
 } spec[MAXFB];
 static int nfib, nthreads;
@@ -59,12 +60,55 @@ static void do_sleep(int via, uint64_t us) {
       fiber_sleep((uint32_t)(us / 1000000), (uint32_t)(us % 1000000));
   }
 }
+/* ---- aligned scenario: thread B finishes a long computation and polls the (coalesced) timer at about the
+ * moment a fiber on thread A calls a short sleep ---- */
+static int al_d_us, al_e_us, al_sleep_us, al_reps;
+static volatile int al_started;
+static void* al_finisher(void* p) {
+  (void)p;
+  al_started = 1;
+  sim_compute((uint64_t)al_d_us * 1000);
+  sim_progress();
+  return NULL;
+}
+static void* al_sleeper(void* p) {
+  (void)p;
+  long pre = (long)al_d_us + al_e_us;
+  if (pre < 0) pre = 0;
+  sim_compute((uint64_t)pre * 1000);
+  for (int k = 0; k < al_reps; k++) {
+    uint64_t t0 = g_before();
+    int sw0 = g_sw();
+    fiber_sleep(0, (uint32_t)al_sleep_us);
+    g_after(0, t0, (uint64_t)al_sleep_us, sw0);
+  }
+  return NULL;
+}
+static void run_aligned(sim_cfg_t c) {
+  al_d_us = 1000 * wl_int(11, 40);
+  al_e_us = wl_int(-600, 2500);
+  al_sleep_us = wl_pick(2) ? 300 : 999;
+  al_reps = wl_int(1, 2);
+  sim_describe("threads=%d aligned: finisher computes %d us, sleeper computes %d us then sleeps %d us x%d cost=%dns preempt=1/%d", c.threads, al_d_us, al_d_us + al_e_us, al_sleep_us, al_reps,
+               c.cost_ns, c.preempt_inv);
+  sim_nontrivial();
+  sim_set_quiet_ns(100 * 5000000ull);
+  sim_fiber_mode();
+  fiber_manager_init(c.threads < 2 ? 2 : c.threads);
+  fiber_t* x = fiber_create(STK, al_finisher, NULL);
+  while (!al_started) fiber_yield(); /* the finisher now occupies a kernel thread */
+  fiber_t* s = fiber_create(STK, al_sleeper, NULL);
+  fiber_join(s, NULL);
+  fiber_join(x, NULL);
+  h_fiber_end();
+}
 static void* fib(void* p) {
   const int who = (int)(intptr_t)p;
   if (spec[who].role == 0) {
     for (int k = 0; k < spec[who].nsleeps; k++) {
       uint64_t us = spec[who].us[k];
       if (spec[who].via[k] == VIA_SLEEP) us = (us / 1000000) * 1000000;
+      if (spec[who].pre_us[k]) sim_compute((uint64_t)spec[who].pre_us[k] * 1000);
       uint64_t t0 = g_before();
       int sw0 = g_sw();
       do_sleep(spec[who].via[k], us);
@@ -87,6 +131,10 @@ void h_run(void) {
   nthreads = c.threads;
   static const uint64_t durs[] = {0, 300, 999, 1000, 3000, 5000, 7000, 12000, 12000, 25000, 60000, 250000, 1000300, 2007000};
   const int ndur = sim_tier_thorough() ? 14 : 12;
+  if (wl_pct(12)) {
+    run_aligned(c);
+    return;
+  }
   nfib = wl_int(1, 6);
   int busy_scenario = wl_pct(35);
   uint64_t shared = durs[wl_pick(ndur)];
@@ -104,6 +152,8 @@ void h_run(void) {
         spec[i].us[k] = wl_pct(40) ? shared : durs[wl_pick(ndur)];
         spec[i].via[k] = wl_pick(4);
         if (spec[i].via[k] == VIA_SLEEP && spec[i].us[k] < 1000000) spec[i].via[k] = VIA_FIBER_SLEEP;
+        spec[i].pre_us[k] = busy_scenario && wl_pct(60) ? 1000 * wl_int(1, 40) : 0;
+        if (spec[i].pre_us[k]) n_busy++;
         if (spec[i].us[k] > longest) longest = spec[i].us[k];
         dk += snprintf(d + dk, sizeof d - dk, "s%d:%luus/%d ", i, (unsigned long)spec[i].us[k], spec[i].via[k]);
       }
